@@ -1115,8 +1115,7 @@ func c02Do(in *c02In) (c02Obs, error) {
 	if in.isRange() && resp.Header != nil {
 		o.FileAns = resp.Header.Get("Etag") != "" || resp.Status == 206 || resp.Status == 304 || resp.Status == 416
 		if o.FileAns {
-			// Content-Length describes the piece, not the file (and stays the sibling's on a range of a
-			// precompressed sibling): the file is identified by ETag and Last-Modified
+			// Content-Length describes the piece, not the file: the file is identified by ETag and Last-Modified
 			resp.Header.Del("Content-Length")
 			if in.Method == "GET" && (resp.Status == 200 || resp.Status == 206) {
 				o.Parts = c02Parts(tree, resp.Status, resp.Header, resp.Body)
